@@ -46,3 +46,39 @@ Proof. exact build_graph_truthful. Qed.
 Theorem C03_graph_of_checked_db_truthful : forall U P db core,
   facts_ok U P db = true -> Truthful U P (build_graph U (core_clauses db core)).
 Proof. exact graph_of_checked_db_truthful. Qed.
+
+(* ---- Solver::analyze_unsolvable itself (Cdcl/Unsolvable.v: the walk over the
+   root-level trail that collects the clauses of the report, learnt clauses
+   expanded depth first through their recorded derivations; compared with the
+   implementation's Conflict for equality, in order, on every Unsolvable run) ---- *)
+From Resolvo Require Import Cdcl.UnsolvableProofs.
+
+(* for every clause database, trail and conflicting clause: the clauses the model
+   collects cannot all hold once the root is installed (side conditions evaluated
+   per run by the second component: conflicting clause falsified, reasons of the
+   involved assignments genuine, antecedents of learnt clauses older) *)
+Theorem C03_analyze_unsolvable_refutes : forall db tr conf core,
+  unsolvable db tr conf = Some (core, true) ->
+  (forall id c, nth_error db (N.to_nat id) = Some c -> is_learnt c = true -> learnt_entailed db id) ->
+  forall a : asg, a VRoot = true ->
+  (forall i c, In i core -> nth_error db (N.to_nat i) = Some c -> cl_true a (cl_lits c) = true) -> False.
+Proof. exact core_unsat. Qed.
+
+(* in the form the check uses: an accepted replay of the conflict analyses plus an
+   accepted comparison of the conflict make the reported clauses a refutation *)
+Theorem C03_checked_conflict_is_refutation : forall db evs n conf core,
+  check_analyses db evs = (n, true) ->
+  check_unsolvable db evs conf core = (true, true) ->
+  forall a : asg, a VRoot = true ->
+  (forall i c, In i core -> nth_error db (N.to_nat i) = Some c -> cl_true a (cl_lits c) = true) -> False.
+Proof. exact checked_conflict_is_refutation. Qed.
+
+(* the hypotheses are met by a run whose last propagation came from a learnt clause *)
+Example C03_analyze_unsolvable_example :
+  let db := [mkCl KRoot [(VRoot, true)];
+             mkCl (KLock 0 1) [(VRoot, false); (VSol 1, true)];
+             mkCl (KExcluded 1 0) [(VSol 1, false)];
+             mkCl (KLearnt [1; 2]%N) [(VSol 1, false)]] in
+  let tr := [mkT (VSol 1, false) 1 3; mkT (VRoot, true) 1 0] in
+  unsolvable db tr 1 = Some ([1; 2]%N, true).
+Proof. vm_compute. reflexivity. Qed.
